@@ -7,7 +7,7 @@
 From Coq Require Import ZArith List Bool Arith Lia Reals Lra.
 Set Warnings "-ambiguous-paths".
 From Coquelicot Require Import Coquelicot.
-From XF Require Import Arith BH BHProofs.
+From XF Require Import Arith BH BHGauss BHProofs.
 Import ListNotations.
 Local Open Scope R_scope.
 
@@ -61,6 +61,22 @@ Theorem C19_dHdB_on_closed_segment : forall (m : mat (F:=R)) (B : R) pre sg post
 Proof. exact getdHdB_on_segment. Qed.
 Print Assumptions C19_dHdB_on_closed_segment.
 
+(* table level, full strength: at EVERY flux density beyond the first knot — inside a segment, at
+   a knot, at the last point, beyond the table — the reported slope GetdHdB is the derivative of
+   the reported H *)
+Theorem C19_dHdB_is_derivative_of_H : forall (m : mat (F:=R)) (B : R),
+  tbl_wf m -> 0 <= hd 0 (mB m) -> hd 0 (mB m) < B ->
+  is_derive (fun x => fst (getH RA m x)) B (fst (getdHdB RA m B)).
+Proof. exact getH_is_derive. Qed.
+Print Assumptions C19_dHdB_is_derivative_of_H.
+
+(* H(|B|) is continuous on the whole real line when the table starts at B = 0 *)
+Theorem C19_H_continuous_everywhere : forall (m : mat (F:=R)) (B : R),
+  tbl_wf m -> (2 <= length (mB m))%nat -> hd 0 (mB m) = 0 ->
+  continuous (fun x => fst (getH RA m x)) B.
+Proof. exact getH_continuous. Qed.
+Print Assumptions C19_H_continuous_everywhere.
+
 (* -- (c) the stored energy is the integral of H dB --------------------------------------- *)
 (* segment formula: 0 at the left knot, the whole-segment constant at the right knot (energy is
    continuous at knots), derivative = the cubic of GetH *)
@@ -78,6 +94,20 @@ Theorem C19_energy_on_closed_segment : forall (m : mat (F:=R)) (B : R) pre sg po
   getEnergy RA m B = esum pre + eseg_at (Rabs B) sg.
 Proof. exact getEnergy_on_segment. Qed.
 Print Assumptions C19_energy_on_closed_segment.
+
+(* table level, full strength: d(energy)/dB = H at every B beyond the first knot, and the energy
+   IS the integral of the reported H from the first knot, inside and beyond the table *)
+Theorem C19_energy_derivative_is_H : forall (m : mat (F:=R)) (B : R),
+  tbl_wf m -> 0 <= hd 0 (mB m) -> hd 0 (mB m) < B ->
+  is_derive (getEnergy RA m) B (fst (getH RA m B)).
+Proof. exact getEnergy_is_derive. Qed.
+Print Assumptions C19_energy_derivative_is_H.
+
+Theorem C19_energy_is_integral_of_H : forall (m : mat (F:=R)) (B : R),
+  tbl_wf m -> (2 <= length (mB m))%nat -> 0 <= hd 0 (mB m) -> hd 0 (mB m) <= B ->
+  is_RInt (fun x => fst (getH RA m x)) (hd 0 (mB m)) B (getEnergy RA m B).
+Proof. exact getEnergy_is_RInt. Qed.
+Print Assumptions C19_energy_is_integral_of_H.
 
 (* -- (d) beyond the last point: H affine with the last slope, slope constant, energy tail
       differentiates to H and starts at the accumulated table energy ----------------------- *)
@@ -189,7 +219,46 @@ Theorem C19_line_table_passes_test : forall (k : R) (Bd : list R), incr Bd ->
 Proof. exact line_curve_ok. Qed.
 Print Assumptions C19_line_table_passes_test.
 
+(* -- the slopes: GaussSolve and the spline system ------------------------------------------- *)
+(* CComplexFullMatrix::GaussSolve as written (pivot search, row swap, elimination restricted to
+   columns k>=i, back substitution): whenever it reports success, what it returns is THE solution
+   of the n x n system it was given (all n, all complex entries) *)
+Theorem C19_gauss_solve_returns_the_solution :
+  forall (n : nat) (M : list (list (R * R))) (b x : list (R * R)),
+  shape n M b -> gauss_solve RA M b = (true, x) ->
+  forall y, length y = n -> (sat n M b y <-> y = x).
+Proof. exact gauss_solve_correct. Qed.
+Print Assumptions C19_gauss_solve_returns_the_solution.
+
+(* hence the stored slopes are the unique solution of the natural-spline equations of the table *)
+Theorem C19_slopes_solve_the_spline_system : forall (Bd : list R) (Hd Sd : list (R * R)),
+  gauss_solve RA (fst (spline_system RA Bd Hd)) (snd (spline_system RA Bd Hd)) = (true, Sd) ->
+  forall y, length y = length Bd ->
+    (sat (length Bd) (fst (spline_system RA Bd Hd)) (snd (spline_system RA Bd Hd)) y <-> y = Sd).
+Proof. exact slopes_solve_spline_system. Qed.
+Print Assumptions C19_slopes_solve_the_spline_system.
+
+(* GetSlopes(0) on a straight-line table (no fill-factor mixing): one pass, no smoothing, table
+   untouched, every slope = the slope of the line; with C19_line_table_is_linear_material the
+   material built from it IS the linear material.
+   PARTIAL: conditional on GaussSolve reporting success on that system (its return value is
+   ignored by the C++; that the pivots of the spline matrix never vanish is not proved). *)
+Theorem C19_get_slopes_on_line_table_partial :
+  forall fuel lam0 lamfill muo (k : R * R) (Bd : list R),
+  no_mixing lam0 lamfill false -> incr Bd -> (2 <= length Bd)%nat ->
+  fst (gauss_solve RA (fst (spline_system RA Bd (line_H k Bd)))
+                      (snd (spline_system RA Bd (line_H k Bd)))) = true ->
+  get_slopes RA (S fuel) lam0 lamfill muo Bd (line_H k Bd)
+  = mkSR Bd (line_H k Bd) (line_S k Bd) 0 true true.
+Proof. exact get_slopes_line_table. Qed.
+Print Assumptions C19_get_slopes_on_line_table_partial.
+
 (* -- non-vacuity -------------------------------------------------------------------------- *)
+(* the spline system of every table has the shape required by the GaussSolve theorem *)
+Example C19_spline_system_has_shape : forall (Bd : list R) (Hd : list (R * R)),
+  shape (length Bd) (fst (spline_system RA Bd Hd)) (snd (spline_system RA Bd Hd)).
+Proof. exact spline_shape. Qed.
+
 (* a concrete 3-point monotone table with its natural-spline slopes: well-formed, passes the
    test, H non-decreasing by the theorem above *)
 Example C19_hypotheses_satisfiable :
